@@ -81,10 +81,13 @@ def gen_seed_table(tag):
         n += 1
         now = sorted({r for c in meta.get("checks", {}).values() for r in c.get("rules", [])})
         first = sorted({r for c in (fc or {}).get("checks", {}).values() for r in c.get("rules", [])}) if fc else None
+        if fc and fc.get("counted_as") == "missed":
+            first = []
         caught0 += bool(first)
         caught += bool(now)
         what = " ".join((meta.get("needs_to_manifest") or "").split())[:110].replace("|", "/")
-        rows.append(f"| {name} | {', '.join(first) if first else ('**missed**' if fc is not None else 'n/a')} | {', '.join(now) or '**missed**'} | {what} |")
+        note = " (accidental hit, see notes/first_contact)" if fc and fc.get("counted_as") == "missed" else ""
+        rows.append(f"| {name} | {', '.join(first) if first else ('**missed**' + note if fc is not None else 'n/a')} | {', '.join(now) or '**missed**'} | {what} |")
     head = f"{n} seeds: {caught0} caught at first contact, {caught} caught by the rule set as committed.\n\n"
     return head + "\n".join(rows)
 
